@@ -1,5 +1,7 @@
 package rig
 
+import "fmt"
+
 import "sort"
 
 // Mix is the pure function that defines "arbitrary memory contents": byte = Mix(seed, addr).
@@ -29,6 +31,29 @@ type Mem struct {
 	DoLog  bool
 	OOR    int    // accesses with address >= 1<<24
 	OORAdr uint32 // first such address
+	// accesses that the bus delivered to the handler of another address window (see cpu.go: the flat memory is
+	// attached as three windows so that an access routed with the wrong segment's handler shows)
+	Mis                  int
+	MisAdr, MisLo, MisHi uint32
+}
+
+// Misrouted records an access at a that arrived at the handler attached over [lo, hi].
+func (m *Mem) Misrouted(a, lo, hi uint32) {
+	if m.Mis == 0 {
+		m.MisAdr, m.MisLo, m.MisHi = a, lo, hi
+	}
+	m.Mis++
+}
+
+// BusFault describes the first access outside the 24-bit space or delivered to the wrong window ("" if none).
+func (m *Mem) BusFault() string {
+	switch {
+	case m.OOR > 0:
+		return fmt.Sprintf("issued a bus access at $%X, outside the 24-bit address space", m.OORAdr)
+	case m.Mis > 0:
+		return fmt.Sprintf("made an access to $%06X through the bus handler attached over $%06X-$%06X (the access was routed by another address than the one it carries)", m.MisAdr, m.MisLo, m.MisHi)
+	}
+	return ""
 }
 
 func NewMem(seed uint32) *Mem { return &Mem{Seed: seed, Over: map[uint32]byte{}} }
@@ -39,6 +64,7 @@ func (m *Mem) Reset(seed uint32) {
 	m.Log = m.Log[:0]
 	m.OOR = 0
 	m.OORAdr = 0
+	m.Mis = 0
 }
 
 func (m *Mem) note(a uint32) {
